@@ -17,6 +17,7 @@ from .. import common, pitauto, pitcheck
 KEYS = {
     'add-with-concat-operand': 'C09:add-with-concat-operand',
     'depthwise-fed-by-concat': 'C09:depthwise-fed-by-concat',
+    'layer-twice-fed-by-concat': 'C09:layer-twice-fed-by-concat',
 }
 
 
